@@ -17,7 +17,7 @@ use hulc::ctehexml::{self, CtehexmlData};
 use crate::engine::{fnv64, mix, worker_call, Args, CaseH, Ctx, ReplayDoc, Tier, Verdict, WorkerOut};
 use crate::util::{files_named, files_with_ext, read_latin1};
 
-pub const EDITS: [&str; 13] = ["delete-line", "duplicate-line", "truncate-after", "truncate-inside-a", "truncate-inside-b", "number->abc", "number->1e39", "number->-1", "number->NaN", "number->0", "number->99", "rename-quoted", "delete-block"];
+pub const EDITS: [&str; 16] = ["delete-line", "duplicate-line", "truncate-after", "truncate-inside-a", "truncate-inside-b", "number->abc", "number->1e39", "number->-1", "number->NaN", "number->0", "number->99", "number->400000000", "rename-quoted", "rename-quoted-short", "xml-text->x", "delete-block"];
 
 #[derive(Clone, Debug, Serialize, Deserialize)]
 pub struct FaultCase {
@@ -193,7 +193,7 @@ pub fn apply_edit(lines: &[&str], eol: &str, c: &FaultCase, kind: Kind) -> Optio
             out.extend(lines[..i].iter().map(|l| l.to_string()));
             out.push(l.chars().take(cut).collect());
         }
-        "number->abc" | "number->1e39" | "number->-1" | "number->NaN" | "number->0" | "number->99" => {
+        "number->abc" | "number->1e39" | "number->-1" | "number->NaN" | "number->0" | "number->99" | "number->400000000" => {
             let (a, b) = first_number_span(lines[i])?;
             let rep = &c.edit["number->".len()..];
             for (k, l) in lines.iter().enumerate() {
@@ -209,6 +209,32 @@ pub fn apply_edit(lines: &[&str], eol: &str, c: &FaultCase, kind: Kind) -> Optio
             for (k, l) in lines.iter().enumerate() {
                 if k == i {
                     out.push(format!("{}{}_X{}", &l[..a], &l[a..b], &l[b..]));
+                } else {
+                    out.push(l.to_string());
+                }
+            }
+        }
+        "rename-quoted-short" => {
+            let (a, b) = quoted_span(lines[i])?;
+            for (k, l) in lines.iter().enumerate() {
+                if k == i {
+                    out.push(format!("{}x{}", &l[..a], &l[b..]));
+                } else {
+                    out.push(l.to_string());
+                }
+            }
+        }
+        "xml-text->x" => {
+            // <tag>text</tag> on one line: the text (a name, a reference to a curve, a number) becomes "x"
+            let l = lines[i];
+            let a = l.find('>')? + 1;
+            let b = a + l[a..].find("</")?;
+            if b <= a || !l.trim_start().starts_with('<') {
+                return None;
+            }
+            for (k, l) in lines.iter().enumerate() {
+                if k == i {
+                    out.push(format!("{}x{}", &l[..a], &l[b..]));
                 } else {
                     out.push(l.to_string());
                 }
@@ -473,7 +499,7 @@ fn short(p: &str) -> &str {
 
 pub fn run(args: &Args) -> ! {
     let ctx = Ctx::new("C19", "fault_enumeration", args);
-    ctx.rule("fault enumeration: for every shipped project file (.ctehexml, legacy .cte, KyGananciasSolares.txt, NewBDL_O.tbl; located by glob at run time) and every line: delete / duplicate / truncate-after / cut inside the line at two seeded positions / first number -> abc, 1e39, -1, NaN, 0, 99 / rename the quoted name / delete the enclosing block; plus the intact file. thorough = every line; quick = a seeded 1/48 slice of the lines of every file plus one line of every distinct attribute key, block type and XML tag per file kind (all edit kinds on each chosen line). extra_files: the same edits of every KyGananciasSolares.txt / NewBDL_O.tbl that lies next to a project (thorough: every line, quick: a seeded 1/6 slice), placed with the intact project file in a scratch directory and read through hulc2model::collect_hulc_data(dir, true, true). saved_inputs: crashing inputs of earlier fuzz campaigns kept as plain files under regressions/C19/inputs, replayed in every run. For .ctehexml projects the conversion is followed by the stage the export tool adds (fix_ecdata_from_extra: indicators of the converted model, i.e. U values and shading by ray casting) for every number edit and a quarter of the others. Each damaged text goes through parse (+ LIDER catalogue merge) + Model::try_from (kyg/tbl: parse) in a worker process under a 60 s watchdog: Ok or Err passes, panic / hang / process death is a violation, one per distinct panic signature (file + function + masked message). Non-trivial: the damaged line is neither blank nor a comment.");
+    ctx.rule("fault enumeration: for every shipped project file (.ctehexml, legacy .cte, KyGananciasSolares.txt, NewBDL_O.tbl; located by glob at run time) and every line: delete / duplicate / truncate-after / cut inside the line at two seeded positions / first number -> abc, 1e39, -1, NaN, 0, 99, 400000000 / rename the quoted name (suffix _X, or the one-letter name x) / text of an XML element -> x / delete the enclosing block; plus the intact file. generated_faults: the same edits over generated projects (quick: 6 projects, 1/4 of their lines; thorough: 24 projects, every line), printed as .ctehexml or legacy BDL, two in three with accented letters in every name; only projects that convert when intact. thorough = every line; quick = a seeded 1/48 slice of the lines of every file, the first 8 lines of every result file, plus one line of every distinct attribute key, block type and XML tag per file kind (all edit kinds on each chosen line). extra_files: the same edits of every KyGananciasSolares.txt / NewBDL_O.tbl that lies next to a project (thorough: every line, quick: a seeded 1/6 slice), placed with the intact project file in a scratch directory and read through hulc2model::collect_hulc_data(dir, true, true). saved_inputs: crashing inputs of earlier fuzz campaigns kept as plain files under regressions/C19/inputs, replayed in every run. For .ctehexml projects the conversion is followed by the stage the export tool adds (fix_ecdata_from_extra: indicators of the converted model, i.e. U values and shading by ray casting) for every number edit and a quarter of the others. Each damaged text goes through parse (+ LIDER catalogue merge) + Model::try_from (kyg/tbl: parse) in a worker process under a 60 s watchdog: Ok or Err passes, panic / hang / process death is a violation, one per distinct panic signature (file + function + masked message). Non-trivial: the damaged line is neither blank nor a comment.");
     ctx.assume("the LIDER catalogue is decoded once per worker and merged per case exactly as parse_with_catalog does; 1 case in 64 goes through the real parse_with_catalog as a cross-check");
     ctx.replay_regressions(replay_one);
     let files = corpus();
@@ -528,7 +554,9 @@ pub fn run(args: &Args) -> ! {
         let strat: std::collections::HashSet<usize> = strata.iter().filter(|(k, v)| k.0 == kindname && v.1 == path).map(|(_, v)| v.2).collect();
         let _ = &lines;
         for i in 0..n {
-            let pick = denom == 1 || strat.contains(&i) || mix(ctx.seed(), &path, i as u64) % denom == 0;
+            // result files: their first lines (format header, element / space counts) are always damaged
+            let header = i < 8 && matches!(kind_of(&path), Kind::Kyg | Kind::Tbl);
+            let pick = denom == 1 || header || strat.contains(&i) || mix(ctx.seed(), &path, i as u64) % denom == 0;
             if !pick {
                 continue;
             }
@@ -609,7 +637,7 @@ pub fn run(args: &Args) -> ! {
         let text = read_text(&path);
         let eol = if text.contains("\r\n") { "\r\n" } else { "\n" };
         for i in 0..text.split(eol).count() {
-            if xdenom != 1 && mix(ctx.seed(), &format!("x{}", path), i as u64) % xdenom != 0 {
+            if xdenom != 1 && i >= 8 && mix(ctx.seed(), &format!("x{}", path), i as u64) % xdenom != 0 {
                 continue;
             }
             for e in EDITS {
